@@ -556,7 +556,23 @@ impl World {
                 trio_id,
                 owner.clone(),
                 &t::InstantiateMsg {
-                    asset_infos: infos.clone(),
+                    // how the DEPLOYER spells the cw20 assets' addresses (derived from the init line like the denom
+                    // set; addresses are case-insensitive and the pool stores the canonical form, so the pool must
+                    // behave the same; the harness itself keeps using the canonical spelling): plain / upper / mixed
+                    asset_infos: {
+                        let sp = amp.wrapping_mul(3).wrapping_add(h) % 4;
+                        let spell = |i: &AssetInfo| match i {
+                            AssetInfo::Token { contract_addr } => AssetInfo::Token {
+                                contract_addr: match sp {
+                                    2 => contract_addr.to_uppercase(),
+                                    3 => contract_addr.chars().enumerate().map(|(k, c)| if k % 2 == 0 { c.to_ascii_uppercase() } else { c }).collect(),
+                                    _ => contract_addr.clone(),
+                                },
+                            },
+                            n => n.clone(),
+                        };
+                        [spell(&infos[0]), spell(&infos[1]), spell(&infos[2])]
+                    },
                     token_code_id: token_id,
                     asset_decimals: [6, 6, 6],
                     pool_fees: pool_fee(p, s, b),
